@@ -386,6 +386,18 @@ def run_hist_engine(ctx, spec):
                 if nte.startswith("AltRead:") and "Index:" not in nte and (("Range visited" in nte) == (ctx.pid == "C04")):
                     ctx.violation("altread", "two ways of reading the same state disagree: " + nte[9:] + f"  (profile={spec['profile']} seed={seed} case={case})",
                                   data={"engine": "hist", "profile": spec["profile"], "seed": seed, "case": int(case), "history": vlib.case_text(s["shards"], int(case)) or ""})
+    if ctx.pid == "C16":
+        for case, notes in (s.get("notes") or {}).items():
+            for nte in notes:
+                if nte.startswith("SortProbe:") and sum(1 for v in ctx.violations if v.get("kind") == "sortprobe") < 5:
+                    ctx.violation("sortprobe", nte + f"  (profile={spec['profile']} seed={seed} case={case})",
+                                  data={"engine": "hist", "profile": spec["profile"], "seed": seed, "case": int(case), "history": vlib.case_text(s["shards"], int(case)) or ""})
+    if ctx.pid == "C12":
+        for case, notes in (s.get("notes") or {}).items():
+            for nte in notes:
+                if nte.startswith("KeyProbe:") and sum(1 for v in ctx.violations if v.get("kind") == "keyprobe") < 5:
+                    ctx.violation("keyprobe", nte + f"  (profile={spec['profile']} seed={seed} case={case})",
+                                  data={"engine": "hist", "profile": spec["profile"], "seed": seed, "case": int(case), "history": vlib.case_text(s["shards"], int(case)) or ""})
     if ctx.pid == "C07":
         for case, notes in (s.get("notes") or {}).items():
             for nte in notes:
